@@ -1592,7 +1592,7 @@ pub fn gen_corpus_with(seed: u64, n_fam: usize, q_per_fam: usize, adv: bool) -> 
         let special = f % 2 == 0;
         if special {
             // the shape the extension functions, regex filters and root-dependent filters are selective on
-            base = json!({"elems": [gen::scalar(&mut rng), "a", "ab", ["a", "b"], ["x"], {"a": "xay", "b": 1, "re": "x.y"}, 2, 0], "list": ["a", "b", 1], "x": {"a": "ab", "b": [1, 2, 3]}, "a": base,
+            base = json!({"elems": [gen::scalar(&mut rng), "a", "ab", ["a", "b"], ["x"], {"a": "xay", "b": 1, "re": "x.y"}, 2, 0], "list": ["a", "b", 1], "x": {"a": "ab", "b": [1, 2, 3]}, "e": [[], {}, [[]], {"a": {}}], "a": base,
                 "flag": rng.chance(1, 2), "lim": rng.range(0, 2), "re": *rng.pick(gen::PATTERNS),
                 "long": (0..*rng.pick(&[9i64, 12, 17, 33, 40])).collect::<Vec<i64>>(),
                 "names": ["d", "a", "c", "b", "z", "k", "e", "aa", "ab", "xay"],
@@ -1759,18 +1759,24 @@ pub fn gen_plan_opt(c: &Corpus, run_seed: u64, allow_stress: bool) -> (Plan, Pla
     // 3 % of the runs are long-lived processes: hundreds of operations over hundreds of distinct query
     // texts and member names, so that bounded tables and LRUs fill up and wrap while clients interleave
     let stress = rng.chance(3, 100) && allow_stress;
-    let repr: u8 = if stress { rng.below(2) as u8 } else if rng.chance(7, 10) { 0 } else { 1 + rng.below(8) as u8 };
+    let repr_draw: u8 = if stress { rng.below(2) as u8 } else if rng.chance(7, 10) { 0 } else { 1 + rng.below(8) as u8 };
     // themed runs: shapes that need several ingredients at once and that uniform draws assemble too
     // rarely for a few thousand runs (both were once caught "by one run in 2 000" and then lost)
     //   1: deep duel — 2-3 clients walk deeply nested documents with `..` and hand over at every node
     //   2: regex crowd — 9-12 clients gathered inside match/search
     //   3: huge texts — one or two clients go through the query texts of tens of kilobytes
-    let theme: u8 = if stress { 0 } else { match rng.below(200) { 0..=2 => 1, 3..=6 => 2, 7..=8 => 3, _ => 0 } };
+    //   4: big-node edits — one client alternates in-place updates of a document with one very big
+    //      node and `length()` queries over it
+    let theme: u8 = if stress { 0 } else { match rng.below(200) { 0..=2 => 1, 3..=6 => 2, 7..=8 => 3, 9..=11 => 4, _ => 0 } };
+    let bignode_fam = (0..c.families.len()).find(|f| c.fam_queries[*f].iter().any(|q| c.queries[*q] == "$[?length(@) > 250]"));
+    let theme = if theme == 4 && bignode_fam.is_none() { 0 } else { theme };
     let huge_fam = (0..c.families.len()).find(|f| c.fam_queries[*f].iter().any(|q| c.queries[*q].len() > 60_000));
     let theme = if theme == 3 && huge_fam.is_none() { 0 } else { theme };
     let deep_fam = (0..c.families.len()).find(|f| c.contents[c.families[*f][0]].starts_with("#deep"));
     let theme = if theme == 1 && deep_fam.is_none() { 0 } else { theme };
-    let n_slots = if theme == 1 { 1 + rng.below(2) } else { 1 + rng.below(4) };
+    // in-place updates exist for Value documents only
+    let repr: u8 = if theme == 4 { 0 } else { repr_draw };
+    let n_slots = if theme == 4 { 1 } else if theme == 1 { 1 + rng.below(2) } else { 1 + rng.below(4) };
     let mut content_map: Vec<usize> = vec![];
     let mut slots: Vec<Vec<usize>> = vec![];
     let mut fams_used: Vec<usize> = vec![];
@@ -1788,6 +1794,8 @@ pub fn gen_plan_opt(c: &Corpus, run_seed: u64, allow_stress: bool) -> (Plan, Pla
             deep_fam.unwrap()
         } else if theme == 3 {
             huge_fam.unwrap()
+        } else if theme == 4 {
+            bignode_fam.unwrap()
         } else if theme == 2 && s == 0 {
             // the special families (even indexes) hold the regex queries
             2 * rng.below((c.families.len() + 1) / 2)
@@ -1809,6 +1817,11 @@ pub fn gen_plan_opt(c: &Corpus, run_seed: u64, allow_stress: bool) -> (Plan, Pla
                 ci = fam[0];
             }
             cs.push(local_content(ci, &mut content_map));
+        }
+        if theme == 4 && fam.len() >= 4 {
+            // the two documents of a pair differ in the size of their one big node
+            let pair = if rng.chance(1, 2) { [fam[0], fam[1]] } else { [fam[2], fam[3]] };
+            cs = pair.iter().map(|ci| local_content(*ci, &mut content_map)).collect();
         }
         slots.push(cs);
     }
@@ -1898,6 +1911,7 @@ pub fn gen_plan_opt(c: &Corpus, run_seed: u64, allow_stress: bool) -> (Plan, Pla
         _ if has_records => 1 + rng.below(2),
         _ if theme == 1 => 2 + rng.below(2),
         _ if theme == 3 => 1 + rng.below(2),
+        _ if theme == 4 => 1,
         4 => 9,
         5 => 10,
         6 => 11,
@@ -1907,7 +1921,7 @@ pub fn gen_plan_opt(c: &Corpus, run_seed: u64, allow_stress: bool) -> (Plan, Pla
         2 => 3,
         _ => 4,
     };
-    let w_swap = rng.below(3) as u32;
+    let w_swap = if theme == 4 { 8 } else { rng.below(3) as u32 };
     let w_clone_doc = rng.below(2) as u32;
     let w_parse = 1 + rng.below(3) as u32;
     let w_e = 2 + rng.below(4) as u32;
@@ -1916,7 +1930,7 @@ pub fn gen_plan_opt(c: &Corpus, run_seed: u64, allow_stress: bool) -> (Plan, Pla
     let w_edit = if !stress && rng.chance(1, 6) { 1u32 } else { 0 };
     let mut clients = vec![];
     for _ in 0..n_clients {
-        let n_ops = if stress { 400 + rng.below(500) } else if crowd { 2 + rng.below(5) } else if theme == 1 { 2 + rng.below(3) } else if theme == 3 { 4 + rng.below(8) } else if has_records { 3 + rng.below(6) } else { 3 + rng.below(38) };
+        let n_ops = if stress { 400 + rng.below(500) } else if crowd { 2 + rng.below(5) } else if theme == 1 { 2 + rng.below(3) } else if theme == 3 { 4 + rng.below(8) } else if theme == 4 { 8 + rng.below(10) } else if has_records { 3 + rng.below(6) } else { 3 + rng.below(38) };
         // themed runs draw their queries from the ones that reach the theme's site
         let themed_q: Vec<usize> = (0..n_normal_q)
             .filter(|q| {
@@ -1925,6 +1939,7 @@ pub fn gen_plan_opt(c: &Corpus, run_seed: u64, allow_stress: bool) -> (Plan, Pla
                     1 => t.contains(".."),
                     2 => t.contains("match(") || t.contains("search("),
                     3 => t.len() > 15_000,
+                    4 => t.contains("length("),
                     _ => false,
                 }
             })
@@ -2106,7 +2121,7 @@ pub fn gen_plan_opt(c: &Corpus, run_seed: u64, allow_stress: bool) -> (Plan, Pla
             deep_stack.push((cl, j, *rng.pick(&[256usize, 1200, 1600, 3000])));
         }
     }
-    // one run in eight makes a few calls over small documents with little stack left (64-512 KiB)
+    // one run in five makes some calls over small documents with little stack left (64-512 KiB)
     let light = |cl: usize, j: usize| -> bool {
         let (q, d) = match &clients[cl][j] {
             Op::Q { q, d } | Op::P { q, d } | Op::W { q, d } | Op::Ref { q, d } => (*q, *d),
@@ -2138,12 +2153,32 @@ pub fn gen_plan_opt(c: &Corpus, run_seed: u64, allow_stress: bool) -> (Plan, Pla
                 }
             }
         }
-    } else if !stress && rng.chance(1, 8) {
-        for _ in 0..(1 + rng.below(5)) {
+    } else if !stress && rng.chance(1, 5) {
+        let walks = |cl: usize, j: usize| -> bool {
+            match &clients[cl][j] {
+                Op::Q { q, .. } | Op::P { q, .. } | Op::W { q, .. } => *q < n_normal_q && c.queries[query_map[*q]].contains(".."),
+                Op::E { s, .. } => c.queries[query_map[qslots_ref[*s]]].contains(".."),
+                _ => false,
+            }
+        };
+        if rng.chance(1, 3) {
+            // a caller that lives on a small stack: every light walking operation of one client
             let cl = rng.below(n_clients);
-            let j = rng.below(clients[cl].len());
+            let kib = *rng.pick(&[64usize, 112]);
+            for j in 0..clients[cl].len() {
+                if light(cl, j) && walks(cl, j) {
+                    deep_stack.push((cl, j, LOW_STACK + kib));
+                }
+            }
+        }
+        for _ in 0..(2 + rng.below(6)) {
+            let cl = rng.below(n_clients);
+            // three draws in four look for a light operation that walks (`..`): recursion is where the
+            // remaining stack matters
+            let cands: Vec<usize> = (0..clients[cl].len()).filter(|j| light(cl, *j) && walks(cl, *j)).collect();
+            let j = if !cands.is_empty() && rng.chance(3, 4) { *rng.pick(&cands) } else { rng.below(clients[cl].len()) };
             if light(cl, j) && !deep_stack.iter().any(|(a, b, _)| *a == cl && *b == j) {
-                deep_stack.push((cl, j, LOW_STACK + *rng.pick(&[64usize, 112, 160, 256, 512])));
+                deep_stack.push((cl, j, LOW_STACK + *rng.pick(&[64usize, 64, 112, 112, 160, 256, 512])));
             }
         }
     }
@@ -2185,10 +2220,10 @@ pub fn gen_plan_opt(c: &Corpus, run_seed: u64, allow_stress: bool) -> (Plan, Pla
             }
         }
     }
-    // one stubbed-store run in four holds `Value` documents in some of its slots: two Queryable types in
+    // one stubbed-store run in two (with two or more slots) holds `Value` documents in some of its slots: two Queryable types in
     // one process, evaluated in whatever order the schedule brings
     let mut value_slots: Vec<usize> = vec![];
-    if repr > 0 && n_slots >= 2 && !stress && rng.chance(1, 4) {
+    if repr > 0 && n_slots >= 2 && !stress && rng.chance(1, 2) {
         for d in 0..n_slots {
             if rng.chance(1, 2) {
                 value_slots.push(d);
@@ -2199,7 +2234,7 @@ pub fn gen_plan_opt(c: &Corpus, run_seed: u64, allow_stress: bool) -> (Plan, Pla
         }
     }
     // one run in six (and every other long-lived one) is executed by the debug-assertions build
-    let dbg_build = if stress { rng.chance(1, 2) } else { rng.chance(1, 6) };
+    let dbg_build = if stress { rng.chance(2, 3) } else { rng.chance(1, 6) };
     // one run in ten: the process' ambient state changes under the callers' feet
     let mut ambient: Vec<(usize, usize, String, u64)> = vec![];
     if rng.chance(1, 8) {
